@@ -495,6 +495,10 @@ fn decode_base32_hex(s: &str) -> Result<[u8; 32], KeyParsingError> {
     Ok(bytes)
 }
 
+#[cfg(kani)]
+#[path = "/verif/kani/iroh_base/key.rs"]
+mod verif_kani;
+
 #[cfg(test)]
 mod tests {
     use data_encoding::HEXLOWER;
